@@ -13,7 +13,8 @@ LEVEL_TEXT = ("TLA+ module XmlDoc defines the documented subset twice, independe
               "and emits [document, tree] cases.  Every such document is read by the real readXML (ASan+UBSan build, file on disk) and the "
               "returned tree is compared with the tree TLC computed.  For everything else - the same short-string set enumerated natively, "
               "every truncation / deletion / substitution / insertion (and truncation followed by one more symbol) of sampled generated "
-              "documents over a 17-symbol alphabet incl. NUL and a high byte, seeded random token and byte strings, documents nested 2000 deep - only the way the call ends is constrained "
+              "documents over a 25-symbol alphabet incl. NUL, VT, FF, 0x1C-0x1F, DEL, 0x80 and 0xFF (always among them documents with blank-padded "
+              "text), every character-data run of length <= 3 over { t, space, LF, tab, VT, FF } in three positions, seeded random token and byte strings, documents nested 2000 deep - only the way the call ends is constrained "
               "(returned, or std::runtime_error; the admissible set is supplied by the specification); every other ending (sanitizer report, "
               "signal, other exception type, no progress for 120 s) is attributed to its input in a forked child, judged and classified by "
               "TLC (lexical context in which the input ends) and re-run once before it is reported.  Code -> spec: seeded random larger "
@@ -24,7 +25,8 @@ LEVEL_NOTE = ("exhaustive over: 4 core trees (two attributes, both quote charact
               "forms x end-tag whitespace x 3 content whitespace forms x 5 comment forms x 3 text positions, minus the combinations of the two "
               "separately classed constructs; choices that cannot change the document of a tree are fixed); all trees of depth <= 2, "
               "fan-out <= 2, 2 names, 9 attribute lists, 3 contents with children from 8 (thorough 24) leaves x 7 style profiles; every "
-              "string of length <= 6 (thorough 7) over { < > / = \" a space ! }.  Sampled only: mutations (seeded sample of the generated "
+              "string of length <= 6 (thorough 7) over { < > / = \" a space ! }; every content run of length <= 3 over 6 symbols x 3 positions (trees "
+              "for the runs inside the subset, the ending only for runs with VT / FF).  Sampled only: mutations (seeded sample of the generated "
               "documents), random strings, random larger documents.  Not decided: totality over all byte strings (only the enumerated / "
               "derived / sampled corpus), nesting deeper than 2000 (the ASan build exhausts the 8 MB stack between 3500 and 4000 levels: the "
               "statement assumes bounded depth), files that cannot be opened or sized, locale-dependent isalpha, "
@@ -40,7 +42,12 @@ SPEC = os.path.join(VERIF, "spec", "xml")
 API = "readXML"
 HANG_S = int(os.environ.get("VERIF_C16_HANG_S", "120"))      # no progress on one input for this long = hang (monotonic clock, generous)
 JAVA_ENV = {"JAVA_TOOL_OPTIONS": "-Xss512m"}      # the recursive scans of XmlDoc need a deep stack in TLC's worker threads
-MUT_ALPHABET = ["<", ">", "/", "=", "\"", "a", " ", "!", "'", "\\", "-", "?", "\x00", "\xff", "&", "\n", "x"]
+MUT_ALPHABET = ["<", ">", "/", "=", "\"", "a", " ", "!", "'", "\\", "-", "?", "\x00", "\xff", "&", "\n", "x",
+                # the byte-class boundaries of the C locale that the reader's isspace / isalpha / isdigit calls tell apart and its own
+                # isWhite() does not: VT and FF (isspace only), the separators 0x1C-0x1F, DEL, the first high byte
+                "\x0b", "\x0c", "\x1c", "\x1d", "\x1e", "\x1f", "\x7f", "\x80"]
+PADDED_TEXT = re.compile(r">[ \t\r\n]+[^<\s][^<]*[ \t\r\n]+<")              # a text run with blanks on both sides
+ODD_AFTER_BLANK = re.compile(r">[^<>]*[ \t\r\n][^<>]*[\x0b\x0c][^<>]*<")    # VT / FF in element content after a blank
 RANDOM_TOKENS = ["<", ">", "/", "=", "\"", "'", " ", "\n", "a", "b1", "<a", "</a>", "<a>", "/>", "<!--", "-->", "<?xml", "?>", " q=\"v\"",
                  " q='", "\\", "\x00", "\xff", "&", "-", "!", "t u", "<a q=\"", "<!", "</", "<?", "--", "<a/>", "\t", "\r", "_", ".", "9"]
 BULK_ASAN = ("detect_leaks=0:abort_on_error=0:exitcode=97:allocator_may_return_null=1:detect_stack_use_after_return=0:"
@@ -396,15 +403,16 @@ def do_run(cx, quick, rnd):
     chk = cx.chk
     # ---- 1. TLC: laws of the specification + cases -------------------------------------------------------
     cfg = "XmlDocGen_quick.cfg" if quick else "XmlDocGen_thorough.cfg"
-    cases = sort_keys(funcheck.gen_cases(chk, SPEC, "XmlDocGen", cfg, "c16-gen", workers=16, timeout=3000, env=JAVA_ENV,
-                                         what="RoundTrip, WellFormed, PrefixLaw, ShortLaw on every slice; one case per document of the subset"))
+    cases = sort_keys(funcheck.gen_cases(chk, SPEC, "XmlDocGen", cfg, "c16-gen", workers=16, timeout=3000, env=dict(JAVA_ENV, XML_VT="\x0b"),
+                                         what="RoundTrip, WellFormed, PrefixLaw, ShortLaw, ContentLaw on every slice; one case per document of the subset"))
     reads = [c for c in cases if c["a"] == "Read"]
     enums = [c for c in cases if c["a"] == "Enumerate"]
     policy = [c for c in cases if c["a"] == "Policy"]
-    if len(policy) != 1 or not enums or not reads:
+    rsafe = [c for c in cases if c["a"] == "ReadSafe"]        # outside the subset by VT / FF in element content: only the ending is stated
+    if len(policy) != 1 or not enums or not reads or not rsafe:
         raise tla.InfraError("XmlDocGen emitted %d policy / %d enumeration / %d document cases" % (len(policy), len(enums), len(reads)))
     cx.safe = sorted(policy[0]["exp"]["outcomes"])
-    for e in enums:
+    for e in enums + rsafe:
         if sorted(e["exp"]["outcomes"]) != cx.safe:
             raise tla.InfraError("inconsistent outcome sets in the emitted cases")
     chk.cov["exhaustive"] = True
@@ -437,7 +445,16 @@ def do_run(cx, quick, rnd):
     nmut = 160 if quick else 1500
     mdocs = rnd.sample(docs, min(nmut, len(docs)))
     longest = sorted(docs, key=len)[-4:]
-    for d in mdocs + [x for x in longest if x not in mdocs]:
+    padded = sorted((d for d in docs if PADDED_TEXT.search(d)), key=lambda d: (len(d), d))
+    padded = padded[:4] + padded[len(padded) // 2:len(padded) // 2 + 4]       # always among the mutated documents: blank-padded text content
+    if len(padded) < 4:
+        raise tla.InfraError("vacuity guard: no generated document with blank-padded text content to mutate")
+    extra = [x for x in longest + padded if x not in mdocs]
+    chk.cov["mutated_documents_with_padded_text"] = sum(1 for d in mdocs + extra if PADDED_TEXT.search(d))
+    sdocs = [c["arg"]["doc"] for c in rsafe]
+    for k in range(0, len(sdocs), 100):
+        bulk.append([{"a": "Batch", "cls": "content-family", "arg": {"docs": sdocs[k:k + 100], "quiet": cx.safe}, "exp": {"outcomes": cx.safe}}])
+    for d in mdocs + extra:
         bulk.append([{"a": "Mutations", "arg": {"doc": d, "alphabet": MUT_ALPHABET, "quiet": cx.safe}, "exp": {"outcomes": cx.safe}}])
     # every truncation of a few documents followed by one more symbol (e.g. a backslash right before the end of the file)
     for d in longest + mdocs[:(12 if quick else 60)]:
@@ -457,9 +474,19 @@ def do_run(cx, quick, rnd):
     before = cx.calls
     bad = check_bulk(cx, bulk, res, "c16-bulk")
     chk.log("%d further files (%d enumerated short strings, mutations of %d documents, %d random strings, nested documents) read in %.1fs: "
-            "%d ended outside %s" % (cx.calls - before, sum(e["exp"]["count"] for e in enums), len(mdocs) + 4, nrand, time.time() - t0, len(bad), cx.safe))
+            "%d ended outside %s" % (cx.calls - before, sum(e["exp"]["count"] for e in enums), len(mdocs) + len(extra), nrand, time.time() - t0, len(bad), cx.safe))
     chk.cov["distinct_nontrivial"] += sum(e["exp"]["count"] for e in enums) - 1      # distinct by construction; all but the empty string
-    chk.cov["mutated_documents"] = len(mdocs) + 4
+    chk.cov["mutated_documents"] = len(mdocs) + len(extra)
+    # vacuity guard: VT / FF in element content after a blank really went through the reader
+    nodd = 0
+    for h, r in zip(bulk, res):
+        if h[0].get("cls") == "content-family" and "obs" in r:
+            o = r["obs"][0]
+            if o.get("count") == len(h[0]["arg"]["docs"]) and not o["outcomes"].get("not_run"):
+                nodd += sum(1 for d in h[0]["arg"]["docs"] if ODD_AFTER_BLANK.search(d))
+    chk.cov["inputs_with_vt_ff_after_blank_in_content"] = nodd
+    if nodd < 50 or not {"\x0b", "\x0c"} <= set(MUT_ALPHABET):
+        raise tla.InfraError("vacuity guard: only %d inputs with VT / FF after a blank inside element content were read" % nodd)
     report_unsafe(cx, bad, "c16-unsafe")
     chk.add_sample({"kind": "bulk-action", "step": {k: v for k, v in bulk[len(enums)][0].items()}}, maxn=4)
 
